@@ -272,6 +272,13 @@ Theorem tie_trg_expr : forall md id env,
 Proof. intros [] id env; reflexivity. Qed.
 Print Assumptions tie_trg_expr.
 
+(* with the two signals read as the model's inputs, it is the model's trg1 for that entry *)
+Theorem tie_trg1 : forall (i : E.minp) (s : E.msrc) (prev : bool) env,
+  env (sub_i (E.s_id s)) = E.in_i i (E.s_id s) -> env (sub_prev (E.s_id s)) = prev ->
+  evalb env (trg_expr (E.s_mode s) (E.s_id s)) = E.trg1 i (s, prev).
+Proof. intros i s prev env Hi Hp. rewrite tie_trg_expr, Hi, Hp. reflexivity. Qed.
+Print Assumptions tie_trg1.
+
 (* the statements one entry of the monitor configuration stands for in the model:
    prev1 (register only for edge modes), trg1, pend1 at bit s_idx *)
 Definition stmts_of (md : E.mode) (id k : Z) : list stmt :=
